@@ -417,6 +417,24 @@ static Case cases[] = {
          }
          return bad;
      }},
+    // ---- C10: what is dropped below the rounding digit takes part in the rounding decision
+    {"digit_rounding_sees_dropped_part", [] {
+         struct { double v; unsigned p; const char *want; } cs[] = {
+             {25.007, 1U, "3e+01"}, {250.0, 1U, "2e+02"}, {350.0, 1U, "4e+02"}, {1050.0, 2U, "1e+03"},
+             {116656.0, 4U, "1.167e+05"}, {13805.5, 4U, "1.381e+04"}, {15851.0, 3U, "1.59e+04"},
+         };
+         int bad = 0;
+         for (auto &c : cs) {
+             StringStream<char> ss;
+             Digit::NumberToString(ss, c.v, Digit::RealFormatInfo{c.p, Digit::RealFormatType::Default});
+             if (!ss.IsEqual(c.want, (SizeT)strlen(c.want))) {
+                 ss += '\0';
+                 printf("expected [%s], got [%s] for %.17g at precision %u\n", c.want, ss.First(), c.v, c.p);
+                 ++bad;
+             }
+         }
+         return bad;
+     }},
     // ---- C01: tag records whose 16-bit fields cannot hold the tag
     {"tmpl_inline_if_longer_than_16_bits", [] {
          std::string t = "{if case=\"1\" true=\"";
